@@ -7,72 +7,7 @@ From AK Require Import Base.Prelude Bytes.Text Bytes.FabHeader Bytes.FabHeaderPr
   Reader.LayoutProofs Reader.ReadProofs Reader.IterProofs
   Plotfile.TextHeader Taste.Taste Plotfile.Abstract
   Writers.Colander Writers.ColanderSpec Writers.ColanderProofs Writers.CombineProofs Writers.Chef.
-
-(* ------------------------------------------------------------------ *)
-(** * extrema *)
-
-Lemma word_leb_refl a : word_leb a a = true.
-Proof. unfold word_leb. apply Z.leb_refl. Qed.
-Lemma word_leb_trans a b c : word_leb a b = true -> word_leb b c = true -> word_leb a c = true.
-Proof. unfold word_leb. rewrite !Z.leb_le. lia. Qed.
-Lemma word_leb_total a b : word_leb a b = true \/ word_leb b a = true.
-Proof. unfold word_leb. rewrite !Z.leb_le. lia. Qed.
-
-Lemma min_word_spec : forall l d,
-  In (min_word l d) (d :: l) /\ forall x, In x (d :: l) -> word_leb (min_word l d) x = true.
-Proof.
-  unfold min_word. induction l as [|w l IH]; intros d; cbn [fold_left].
-  - split; [left; reflexivity|]. intros x [<-|[]]. apply word_leb_refl.
-  - destruct (word_leb d w) eqn:E.
-    + destruct (IH d) as [Hin Hle]. split.
-      * destruct Hin as [H|H]; [left; exact H | right; right; exact H].
-      * intros x [<-|[<-|Hx]].
-        -- apply Hle. left. reflexivity.
-        -- apply (word_leb_trans _ d); [apply Hle; left; reflexivity | exact E].
-        -- apply Hle. right. exact Hx.
-    + destruct (IH w) as [Hin Hle]. split.
-      * destruct Hin as [H|H]; [right; left; exact H | right; right; exact H].
-      * intros x [<-|[<-|Hx]].
-        -- apply (word_leb_trans _ w); [apply Hle; left; reflexivity|].
-           destruct (word_leb_total w d) as [H|H]; [exact H | congruence].
-        -- apply Hle. left. reflexivity.
-        -- apply Hle. right. exact Hx.
-Qed.
-
-Lemma max_word_spec : forall l d,
-  In (max_word l d) (d :: l) /\ forall x, In x (d :: l) -> word_leb x (max_word l d) = true.
-Proof.
-  unfold max_word. induction l as [|w l IH]; intros d; cbn [fold_left].
-  - split; [left; reflexivity|]. intros x [<-|[]]. apply word_leb_refl.
-  - destruct (word_leb d w) eqn:E.
-    + destruct (IH w) as [Hin Hle]. split.
-      * destruct Hin as [H|H]; [right; left; exact H | right; right; exact H].
-      * intros x [<-|[<-|Hx]].
-        -- apply (word_leb_trans _ w); [exact E | apply Hle; left; reflexivity].
-        -- apply Hle. left. reflexivity.
-        -- apply Hle. right. exact Hx.
-    + destruct (IH d) as [Hin Hle]. split.
-      * destruct Hin as [H|H]; [left; exact H | right; right; exact H].
-      * intros x [<-|[<-|Hx]].
-        -- apply Hle. left. reflexivity.
-        -- apply (word_leb_trans _ d); [|apply Hle; left; reflexivity].
-           destruct (word_leb_total w d) as [H|H]; [exact H | congruence].
-        -- apply Hle. right. exact Hx.
-Qed.
-
-(* the minimum / maximum recorded for a non-empty component is one of its
-   values and bounds all of them *)
-Theorem comp_min_spec : forall c, words_of c <> [] ->
-  In (comp_min c) (words_of c) /\ forall x, In x (words_of c) -> word_leb (comp_min c) x = true.
-Proof.
-  intros c H. unfold comp_min. destruct (words_of c) as [|w l]; [congruence|]. apply min_word_spec.
-Qed.
-
-Theorem comp_max_spec : forall c, words_of c <> [] ->
-  In (comp_max c) (words_of c) /\ forall x, In x (words_of c) -> word_leb x (comp_max c) = true.
-Proof.
-  intros c H. unfold comp_max. destruct (words_of c) as [|w l]; [congruence|]. apply max_word_spec.
-Qed.
+From AK Require Export Bytes.WordProofs.
 
 Lemma combine_map_l_local {A B C} (f : A -> B) : forall (l : list A) (l' : list C),
   combine (map f l) l' = map (fun ac => (f (fst ac), snd ac)) (combine l l').
